@@ -11,7 +11,7 @@ VARIABLE l
 Init == l = 1
 \* JSON turns the sets of a vector into arrays
 Vec(r) == [useRe |-> r.vec.useRe, reSet |-> Range(r.vec.reSet), useTags |-> r.vec.useTags,
-           expr |-> r.vec.expr, closure |-> Range(r.vec.closure)]
+           expr |-> r.vec.expr, closure |-> Range(r.vec.closure), dup |-> r.vec.dup]
 Next ==
   /\ l <= Len(Rec)
   /\ LET r == Rec[l]   e == Filtered(Vec(r)) IN
